@@ -377,8 +377,12 @@ func (u *Unit) havocEvents(st *State, kind string) {
 		u.assume(fmt.Sprintf("(forall ((%s Int)) (=> (and (<= 0 %s) (< %s %s)) (= (select %s %s) (select %s %s))))", q, q, q, old, na, q, oa, q))
 	}
 	oa := u.get(st, "at_"+kind)
+	oclk := u.get(st, "clock")
 	na := u.havocComp(st, "at_"+kind)
 	q := u.freshName("q")
 	u.assume(fmt.Sprintf("(forall ((%s Int)) (=> (and (<= 0 %s) (< %s %s)) (= (select %s %s) (select %s %s))))", q, q, q, old, na, q, oa, q))
-	u.havocComp(st, "clock")
+	nclk := u.havocComp(st, "clock")
+	// events added by the callee happened during the call
+	q2 := u.freshName("q")
+	u.assume(fmt.Sprintf("(forall ((%s Int)) (=> (and (<= %s %s) (< %s %s)) (and (<= %s (select %s %s)) (< (select %s %s) %s))))", q2, old, q2, q2, u.get(st, "cnt_"+kind), oclk, na, q2, na, q2, nclk))
 }
